@@ -217,6 +217,104 @@ def project(log_lines, truths):
     return out
 
 
+# ---------------------------------------------------------------- the tfel-check layer (TestLauncher.cxx, tfel-check.cxx)
+TC_DEFINES = ("TFEL_VERIF_HOOKS", "TFEL_ARCH64", "LINUX64", "UNIX64", "THREAD", "HAVE_FENV", 'VERSION="verif"')
+TC_KINDS = {"ok": ("exit 0", "e0"), "e1": ("exit 1", "e1"), "e2": ("exit 2", "e2"), "e3": ("exit 3", "e3"),
+            "e127": ("exit 127", "e127"), "e255": ("exit 255", "e255"), "k9": ("kill -KILL $$", "s9"),
+            "k15": ("kill -TERM $$", "s15"), "slow0": ("sleep 0.02\nexit 0", "e0"), "slow3": ("sleep 0.02\nexit 3", "e3")}
+
+
+def build_tfel_check(ck, built):
+    """tfel-check.cxx and TestLauncher.cxx of the current tree, linked with the process/signal managers compiled from
+    the tree for the first harness (objects given first: they take precedence over the prebuilt shared libraries)"""
+    R = vlib.REPO
+    inc = [R + "/mfront/include", vlib.BUILD + "/mfront/include", R + "/tfel-check/include"]
+    objs = ck.cxx_many([("tc_main.o", [R + "/tfel-check/src/tfel-check.cxx"]), ("tc_launcher.o", [R + "/tfel-check/src/TestLauncher.cxx"])],
+                       flags=["-c"], includes=inc, std="gnu++20", defines=TC_DEFINES)
+    libs = ck.libflags("TFELCheck", "TFELMFront", "MFrontLogStream", "TFELMaterial", "TFELMathParser", "TFELMathCubicSpline",
+                       "TFELGlossary", "TFELSystem", "TFELUtilities", "TFELException", "TFELConfig", "TFELUnicodeSupport",
+                       "TFELNUMODIS", "TFELMath")
+    return ck.cxx("c30tc", [objs["tc_main.o"], objs["tc_launcher.o"]] + [built[n] for n in ("pm.o", "sm.o", "sh.o", "pc.o")],
+                  flags=["-rdynamic"], libs=libs + ["-lpthread"], std="gnu++20")
+
+
+def tfel_check_layer(ck, rng, built):
+    """runs the tfel-check of the tree on seeded suites of .check files whose commands have a known termination:
+    a command is reported as a success iff it exited with 0 (the message names the exit value / the signal),
+    a test succeeds iff all its commands do, tfel-check exits with 0 iff all tests succeed"""
+    import re
+    binary = build_tfel_check(ck, built)
+    suites = [(1, 6), (4, 14), (8, 20)] if ck.quick else [(1, 30), (2, 40), (4, 60), (8, 80), (16, 80)]
+    stats = {"commands": 0, "tests": 0, "suites": 0, "kinds": {}}
+    reported = set()
+    strip = lambda t: re.sub(r"\x1b\[[0-9;]*m", "", t)
+    for si, (jobs, ntests) in enumerate(suites):
+        d = ck.path("tc", "suite%d" % si)
+        shutil.rmtree(d, ignore_errors=True)
+        os.makedirs(d)
+        for k, (body, _) in TC_KINDS.items():
+            with open(os.path.join(d, k + ".sh"), "w") as f:
+                f.write(body + "\n")
+        tests = {}
+        for t in range(ntests):
+            n = rng.choice([1, 1, 2, 3])
+            kinds = [rng.choice(list(TC_KINDS)) if rng.random() < 0.55 else rng.choice(["ok", "slow0"]) for _ in range(n)]
+            tests["t%d" % t] = kinds
+            with open(os.path.join(d, "t%d.check" % t), "w") as f:
+                f.write("".join('@Command "sh %s.sh";\n' % k for k in kinds))
+        p = ck.run([binary, "--jobs=%d" % jobs] + ["t%d.check" % t for t in range(ntests)], cwd=d, timeout=900)
+        log = strip(open(os.path.join(d, "tfel-check.log")).read()) if os.path.exists(os.path.join(d, "tfel-check.log")) else ""
+        stats["suites"] += 1
+        all_ok = True
+        for name, kinds in tests.items():
+            stats["tests"] += 1
+            want_test = all(TC_KINDS[k][1] == "e0" for k in kinds)
+            all_ok = all_ok and want_test
+            m = re.search(r"\* end of test '\./%s\.check'\s*\[\s*(SUCCESS|FAILED)\]" % name, log)
+            got_test = m.group(1) if m else "missing"
+            cl = os.path.join(d, name + ".checklog")
+            clog = strip(open(cl).read()) if os.path.exists(cl) else ""
+            rep = {"site": "tfel-check/src/TestLauncher.cxx, tfel-check/src/tfel-check.cxx", "jobs": jobs,
+                   "check_file": "".join('@Command "sh %s.sh";\n' % k for k in kinds),
+                   "scripts": {k + ".sh": TC_KINDS[k][0] for k in kinds}, "test_verdict": got_test,
+                   "test_log": clog[-1500:], "tfel_check_exit_status": p.returncode}
+            for i, k in enumerate(kinds, 1):
+                stats["commands"] += 1
+                stats["kinds"][k] = stats["kinds"].get(k, 0) + 1
+                truth = TC_KINDS[k][1]
+                mm = re.search(r"%s:Exec-%d\s*\[\s*(SUCCESS|FAILED)\]\s*\n Command was : sh %s\.sh\n(?: Message : (.*)\n)?" % (name, i, k), clog)
+                got = mm.group(1) if mm else "missing"
+                msg = (mm.group(2) or "") if mm else ""
+                bad = None
+                if got != ("SUCCESS" if truth == "e0" else "FAILED"):
+                    bad = "verdict %s" % got
+                elif truth[0] == "e" and truth != "e0" and ("exited abnormally with value %s" % truth[1:]) not in msg:
+                    bad = "message `%s` does not report the exit value %s" % (msg, truth[1:])
+                elif truth[0] == "s" and "signal" not in msg:
+                    bad = "message `%s` does not report the signal death" % msg
+                if bad:
+                    key = "tfel-check/src/TestLauncher.cxx:command-verdict:%s" % ("exit0" if truth == "e0" else ("exit-n" if truth[0] == "e" else "signal"))
+                    if key not in reported:
+                        reported.add(key)
+                        ck.violation(key, "tfel-check --jobs=%d, test %s, command %d (`%s`, which %s): %s" % (
+                            jobs, name, i, TC_KINDS[k][0].replace("\n", "; "),
+                            "exits with %s" % truth[1:] if truth[0] == "e" else "is killed by signal %s" % truth[1:], bad), rep, True)
+            if got_test != ("SUCCESS" if want_test else "FAILED"):
+                key = "tfel-check/src/TestLauncher.cxx:test-verdict:%s" % ("all-commands-succeed" if want_test else "a-command-fails")
+                if key not in reported:
+                    reported.add(key)
+                    ck.violation(key, "tfel-check --jobs=%d: test %s (commands %s) is reported %s" % (jobs, name, kinds, got_test), rep, True)
+        if (p.returncode == 0) != all_ok or p.returncode not in (0, 1):
+            key = "tfel-check/src/tfel-check.cxx:exit-status:%s" % ("all-tests-succeed" if all_ok else "a-test-fails")
+            if key not in reported:
+                reported.add(key)
+                ck.violation(key, "tfel-check --jobs=%d exits with %d although %s" % (
+                    jobs, p.returncode, "every test succeeds" if all_ok else "some tests fail"),
+                    {"site": "tfel-check/src/tfel-check.cxx", "jobs": jobs, "tests": tests,
+                     "scripts": {k + ".sh": v[0] for k, v in TC_KINDS.items()}, "log_tail": log[-2500:], "stderr": p.stderr[-500:]}, True)
+    return stats
+
+
 def run(ck):
     rng = random.Random(ck.seed)
     src, hook_note = hooked_source(ck)
@@ -324,7 +422,9 @@ def run(ck):
     ck.violations = [v for v in ck.violations
                      if not (v[0].startswith("corr:") and v[0][5:] in reported)]
 
+    tc = tfel_check_layer(ck, random.Random(ck.seed + 7919), built)
     ck.assumptions += [
+        "the tfel-check layer (TestLauncher::execute, TFELCheck::execute) is not modelled: tfel-check.cxx and TestLauncher.cxx of the current tree are compiled, linked with the process and signal managers of the tree (in front of the prebuilt libTFELCheck / libTFELSystem) and run with --jobs 1..8 on seeded .check files whose commands exit with 0 / n / die by a signal; command verdicts and messages, test verdicts and the exit status of tfel-check are compared with what the terminations require (commands are `sh <file>.sh`: tfel-check splits commands on blanks without honouring quotes)",
         "M: the transition system of Model.lean is tied to ProcessManager.cxx by trace validation: the kernel's answers to every waitpid are logged by an interposed waitpid in the harness, setProcessExitStatus and the handler's critical section by hooks (guard TFEL_VERIF_HOOKS); every job's history must be accepted by the model and execute()'s outcome must be the model's (differential testing over the schedules run, not proof)",
         "kernel facts modelled, not verified: a zombie is reaped by exactly one successful waitpid; later waitpids fail with ECHILD; a failing waitpid leaves status unwritten; an unwritten local holds an arbitrary value; nobody but wait() and sigChildHandler reaps the child",
         "setProcessExitStatus and the test of isRunning are modelled as atomic steps (the C++ data race on the record between wait() and the handler is not modelled); the handler is serialised by processesAccess",
@@ -341,5 +441,7 @@ def run(ck):
         "traces_validated_against_impl": len(jobs), "traces_accepted": accepted, "wrong_outcomes": wrong,
         "paths": paths, "outcomes": outcomes, "configurations": [r["name"] for r in runs],
         "reordered_late_reap_lines": sum(1 for J in jobs.values() if J["moved"]),
+        "tfel_check_suites": tc["suites"], "tfel_check_tests": tc["tests"], "tfel_check_commands": tc["commands"],
+        "tfel_check_command_kinds": tc["kinds"],
         "exhaustive": False,
     })
